@@ -29,6 +29,8 @@ for l in open('/verif/properties.jsonl'):
     prev = []
     for suffix in 'abcdefgh':
         f = f'/verif/seeded/{i}-{suffix}/meta.json'
+        if not os.path.exists(f):
+            f = f'/verif/seeded/withdrawn/{i}-{suffix}/meta.json'
         if os.path.exists(f):
             m = json.load(open(f))
             prev.append(f"- \"{m['what']}\" (it needs: {m['needs']})")
